@@ -188,41 +188,56 @@ def r_direction(ctx):
     ctx.floor("R-DIRECTION", "minimize/maximize wiring sites", branches, 4)
 
 
-def verdict_edge_facts(node, label, res):
+def verdict_edge_facts(node, label, res, defs=None):
     """what an edge of a test on the verdict variable `res` establishes: a subset of {'not_unsat', 'not_unknown'}.
     Understood spellings (any polarity, either operand order): res == z3.unsat / z3.unknown / z3.sat, res != ...,
-    res in (z3.unsat, z3.unknown), res not in (...)"""
+    res in (z3.unsat, z3.unknown), res not in (...), and / or / not of those, and a flag assigned once from such a test
+    (`defs`: name -> the expression it was assigned, for the names of the function that are assigned exactly once)"""
     if node.kind != "test" or res is None:
         return set()
-    core, pos = C.strip_not(node.ast.test)
-    holds = (label == "T") == pos            # is the positive core true on this edge?
-    if not (isinstance(core, ast.Compare) and len(core.ops) == 1):
-        return set()
-    l, r = core.left, core.comparators[0]
-    if isinstance(core.ops[0], ast.Eq):
-        if isinstance(r, ast.Name) and r.id == res:
-            l, r = r, l
-        if not (isinstance(l, ast.Name) and l.id == res):
+    ALL = {"not_unsat", "not_unknown"}
+
+    def facts(e, holds, depth=0):
+        if isinstance(e, ast.UnaryOp) and isinstance(e.op, ast.Not):
+            return facts(e.operand, not holds, depth)
+        if isinstance(e, ast.BoolOp):
+            parts = [facts(v, holds, depth) for v in e.values]
+            strong = isinstance(e.op, ast.And) == holds          # every operand has that truth value on this edge
+            return set.union(*parts) if strong else set.intersection(*parts)
+        if isinstance(e, ast.Name) and defs is not None and e.id in defs and e.id != res and depth < 4:
+            return facts(defs[e.id], holds, depth + 1)
+        if not (isinstance(e, ast.Compare) and len(e.ops) == 1):
             return set()
-        what = ast.unparse(r)
-        if what == "z3.sat":
-            return {"not_unsat", "not_unknown"} if holds else set()
-        if what == "z3.unsat":
-            return set() if holds else {"not_unsat"}
-        if what == "z3.unknown":
-            return set() if holds else {"not_unknown"}
+        l, r = e.left, e.comparators[0]
+        op = e.ops[0]
+        if isinstance(op, (ast.NotEq, ast.NotIn)):
+            holds = not holds
+            op = ast.Eq() if isinstance(op, ast.NotEq) else ast.In()
+        if isinstance(op, ast.Eq):
+            if isinstance(r, ast.Name) and r.id == res:
+                l, r = r, l
+            if not (isinstance(l, ast.Name) and l.id == res):
+                return set()
+            what = ast.unparse(r)
+            if what == "z3.sat":
+                return set(ALL) if holds else set()
+            if what == "z3.unsat":
+                return set() if holds else {"not_unsat"}
+            if what == "z3.unknown":
+                return set() if holds else {"not_unknown"}
+            return set()
+        if isinstance(op, ast.In) and isinstance(l, ast.Name) and l.id == res and isinstance(r, (ast.Tuple, ast.List, ast.Set)):
+            members = {ast.unparse(x) for x in r.elts}
+            if holds:
+                return set(ALL) if members == {"z3.sat"} else set()
+            out = set()
+            if "z3.unsat" in members:
+                out.add("not_unsat")
+            if "z3.unknown" in members:
+                out.add("not_unknown")
+            return out
         return set()
-    if isinstance(core.ops[0], ast.In) and isinstance(l, ast.Name) and l.id == res and isinstance(r, (ast.Tuple, ast.List, ast.Set)):
-        members = {ast.unparse(e) for e in r.elts}
-        if holds:
-            return {"not_unsat", "not_unknown"} if members == {"z3.sat"} else set()
-        out = set()
-        if "z3.unsat" in members:
-            out.add("not_unsat")
-        if "z3.unknown" in members:
-            out.add("not_unknown")
-        return out
-    return set()
+    return facts(node.ast.test, label == "T")
 
 
 def r_improve_loop(ctx):
@@ -959,8 +974,14 @@ def r_model_typestate(ctx):
                         def transfer(n_, facts_):
                             return frozenset({"checked"}) if n_ is chk[0] else facts_
 
+                        assigned = {}
+                        for a_ in ast.walk(fn):
+                            if isinstance(a_, ast.Assign) and len(a_.targets) == 1 and isinstance(a_.targets[0], ast.Name):
+                                assigned.setdefault(a_.targets[0].id, []).append(a_.value)
+                        once = {k_: v_[0] for k_, v_ in assigned.items() if len(v_) == 1}
+
                         def edge(n_, lab_, facts_):
-                            return frozenset(set(facts_) | verdict_edge_facts(n_, lab_, res_v))
+                            return frozenset(set(facts_) | verdict_edge_facts(n_, lab_, res_v, once))
                         fm = C.forward_must(g, frozenset(), transfer, edge)[d.id]
                         ok = ok and {"checked", "not_unsat", "not_unknown"} <= fm
                     else:
